@@ -107,6 +107,7 @@ func runC17(c *Ctx, r *Report) {
 	c17ReaderConsumers(c, r)
 	c17ReadDataKept(c, r)
 	c17NoFailureAsData(c, r)
+	c17RecordWithError(c, r)
 }
 
 // ---- R17.1 -----------------------------------------------------------------
@@ -1327,6 +1328,47 @@ func c17EndOfStreamCloses(c *Ctx, r *Report) {
 					}
 					if ret, ok := b2.Instrs[len(b2.Instrs)-1].(*ssa.Return); ok && len(ret.Results) == 1 && FlowsFrom(ret.Results[0], call, 0) {
 						errReturned = true
+					}
+				}
+				// collected: errs = append(errs, m.Close()...) in a loop, the length of the collection tested afterwards
+				if !lenTested {
+					acc := map[ssa.Value]bool{}
+					var follow func(v ssa.Value, depth int)
+					follow = func(v ssa.Value, depth int) {
+						if depth > 6 || acc[v] || v.Referrers() == nil {
+							return
+						}
+						acc[v] = true
+						for _, ref := range *v.Referrers() {
+							switch x := ref.(type) {
+							case *ssa.Phi:
+								follow(x, depth+1)
+							case *ssa.Call:
+								if bi, ok := x.Call.Value.(*ssa.Builtin); ok {
+									if bi.Name() == "append" && x.Call.Args[0] == v {
+										follow(x, depth+1)
+									}
+									if bi.Name() == "len" {
+										lenTested = true
+									}
+								}
+							}
+						}
+					}
+					for _, ref := range *call.Referrers() {
+						if ap, ok := ref.(*ssa.Call); ok {
+							if bi, ok := ap.Call.Value.(*ssa.Builtin); ok && bi.Name() == "append" && len(ap.Call.Args) == 2 && ap.Call.Args[1] == ssa.Value(call) {
+								follow(ap, 0)
+								if lenTested {
+									overwritten = false
+									for _, b2 := range fn.Blocks {
+										if ret, ok := b2.Instrs[len(b2.Instrs)-1].(*ssa.Return); ok && !ReturnsNilError(ret) && blockReaches(call.Block(), b2) {
+											errReturned = true
+										}
+									}
+								}
+							}
+						}
 					}
 				}
 				r.Check(lenTested && errReturned && !overwritten, "R17.8", key, c.Rel(call.Pos()), "len(errs) tested and a non-nil error returned on the non-empty branch",
